@@ -378,6 +378,114 @@ pub fn run_case(ctx: &mut Ctx, c: &Case) -> Result<(), String> {
     }
 }
 
+// ------------------------------------------------------------------ lock interleavings between the control path and a handler that uses the ring
+
+#[derive(Serialize, Deserialize, Debug, Clone, Hash, PartialEq, Eq)]
+pub struct LockCase {
+    pub scenario: Scenario,
+    /// the control thread is parked right before its k-th acquisition of the ring's lock while serving the disabling message
+    pub k: u8,
+}
+
+/// A back end's event handler works on its ring (takes the ring's lock for writing, like add_used does).  The control
+/// thread is stopped right before each of its own acquisitions of that lock — possibly while it still holds an earlier
+/// guard — the guest kicks, the worker dispatches and the handler asks for the lock; then the control thread continues.
+/// Whatever the interleaving, the control message is answered and the worker gets back to its epoll loop (no wake-up is
+/// left unprocessed because the two threads block each other).
+pub fn run_lock_case(ctx: &mut Ctx, c: &LockCase) -> Result<(), String> {
+    use crate::daemon_fx::HookVring;
+    let mut fx: Fx<HookVring> = Fx::new(BeCfg { num_queues: 1, ..Default::default() })?;
+    fx.connect()?;
+    let cl = RawClient::new(fx.peer.as_ref().unwrap().try_clone().unwrap());
+    cl.negotiate(|f| f & ((1 << 32) | spec::VIRTIO_F_PROTOCOL_FEATURES), |p| p).map_err(|e| format!("negotiation: {e}"))?;
+    let k1 = new_eventfd();
+    for (code, body, fds) in [(fe::SET_VRING_KICK, spec::b_u64(0), vec![k1.as_raw_fd()]), (fe::SET_VRING_ENABLE, spec::b_vring_state(0, 1), vec![])] {
+        if cl.ack(code, &body, &fds).map_err(|e| format!("setup: {e}"))? != 0 {
+            return Err("setup message refused".into());
+        }
+    }
+    fx.barrier()?;
+    let sched = Sched::install();
+    let s2 = sched.clone();
+    let hook: EventHook<HookVring> = Arc::new(move |_be, ev, vrings: &[HookVring], _t| {
+        if ev == 0 {
+            s2.mark("handler_entry");
+            // what a real device does in its handler: work on the ring under its lock
+            let g = vrings[0].get_mut();
+            drop(g);
+            s2.mark("handler_done");
+        }
+    });
+    fx.be.st.lock().unwrap().hook = Some(hook);
+    let res = (|| -> Result<(), String> {
+        sched.arm("vring.lock", DAEMON);
+        let (code, body): (u32, Vec<u8>) = match c.scenario {
+            Scenario::DisableEnable => (fe::SET_VRING_ENABLE, spec::b_vring_state(0, 0)),
+            Scenario::StopRestart | Scenario::StopRestartSameFd => (fe::GET_VRING_BASE, spec::b_vring_state(0, 0)),
+            Scenario::ResetRefeature => (fe::RESET_DEVICE, vec![]),
+        };
+        let sock = cl.sock.as_raw_fd();
+        cl.send(code, code != fe::GET_VRING_BASE, &body, &[]).map_err(|e| e.to_string())?;
+        let mut reached = 0u8;
+        let mut parked_at_lock = false;
+        for _ in 0..=c.k {
+            match advance(&sched, DAEMON, || rawpeer::fionread(sock) >= 12, || outq(sock) > 0) {
+                Some(_) => {
+                    reached += 1;
+                    parked_at_lock = true;
+                }
+                None => {
+                    parked_at_lock = false;
+                    break;
+                }
+            }
+        }
+        ctx.class(if parked_at_lock { "control_parked_before_a_ring_lock" } else { "control_finished_before_k" });
+        if parked_at_lock {
+            ctx.nontrivial(&(c.scenario, reached));
+        }
+        // the guest kicks; the worker dispatches (if the ring is still registered) and the handler asks for the lock
+        k1.write(1).map_err(|e| e.to_string())?;
+        let t0 = Instant::now();
+        while let Some(tid) = find_tid(WORKER) {
+            if asleep(tid, 6) || t0.elapsed() > BOUND {
+                break;
+            }
+        }
+        // the control thread continues
+        sched.disarm_all();
+        sched.release_all();
+        if rawpeer::fionread(sock) < 12 {
+            let t0 = Instant::now();
+            while rawpeer::fionread(sock) < 12 {
+                if t0.elapsed() > BOUND {
+                    return Err(format!(
+                        "{c:?}: the control message is not answered within {}s after the control thread was stopped before its ring-lock acquisition #{reached} while the event handler asked for the ring's lock: the two threads block each other; threads: {:?}",
+                        BOUND.as_secs(),
+                        crate::daemon_fx::thread_states().into_iter().filter(|(_, n)| n.starts_with(WORKER) || n.starts_with(DAEMON)).collect::<Vec<_>>()
+                    ));
+                }
+                std::thread::sleep(Duration::from_micros(200));
+            }
+        }
+        let (f, _) = cl.recv_frame().map_err(|e| format!("reply: {e}"))?;
+        if f.code != code {
+            return Err(format!("reply code {} for request {code}", f.code));
+        }
+        // the worker is back in its loop
+        fx.barrier().map_err(|e| format!("{c:?}: after the control message was answered the worker does not serve its epoll loop: {e}"))?;
+        ctx.sample(|| json!({"lock_case": c, "control_lock_acquisitions_reached": reached, "history": sched.history().iter().map(|h| h.1.clone()).collect::<Vec<_>>()}));
+        Ok(())
+    })();
+    sched.uninstall();
+    fx.be.st.lock().unwrap().hook = None;
+    drop(cl);
+    match fx.teardown_checked(10) {
+        Ok(()) => res,
+        Err(e) => res.and(Err(e)),
+    }
+}
+
 /// all words with `nw` W's and `nc` C's, plus optionally one K at any position
 fn words(nw: usize, nc: usize, with_k: bool) -> Vec<Vec<Step>> {
     fn go(nw: usize, nc: usize, cur: &mut Vec<Step>, out: &mut Vec<Vec<Step>>) {
@@ -415,7 +523,7 @@ pub fn run(ctx: &mut Ctx) {
     ctx.rule = "all words over {W: worker advances to its next hold point, C: control path advances (send, after_state_change, after_epoll_update, \
                 reply read), K: one more guest kick} with 4 W and 3 C steps and at most one K, for scenarios disable/enable, stop/restart (new or same kick eventfd), \
                 reset/re-feature (optionally with SET_VRING_CALL and a further kick while the ring is inactive), on VringMutex and VringRwLock rings; each word runs on a fresh daemon with one ring that is started, enabled \
-                and kicked once; every word is run twice: the worker continues before the enabling message is sent, or it stays parked where the word left it until the enabling message has been acknowledged. A party that cannot advance (asleep without being parked) makes that step a no-op. Non-trivial = a schedule in \
+                and kicked once; every word is run twice: the worker continues before the enabling message is sent, or it stays parked where the word left it until the enabling message has been acknowledged. A party that cannot advance (asleep without being parked) makes that step a no-op. Plus lock interleavings on a ring type with a hold point before every lock acquisition: the control thread is stopped before its k-th acquisition (k = 0..13) while the handler takes the ring's write lock. Non-trivial = a schedule in \
                 which a control step lies strictly between two worker steps of the same wake-up; distinct by the trace actually realised."
         .into();
     ctx.assumptions = vec![
@@ -456,4 +564,13 @@ pub fn run(ctx: &mut Ctx) {
     }
     ctx.extra.insert("words".into(), json!(space.len()));
     ctx.enumerate("schedules", space, |ctx, c| run_case(ctx, c));
+
+    // lock interleavings: the control thread stopped before each of its ring-lock acquisitions, handler working on the ring
+    let mut locks = Vec::new();
+    for scenario in [Scenario::DisableEnable, Scenario::StopRestart, Scenario::ResetRefeature] {
+        for k in 0..14u8 {
+            locks.push(LockCase { scenario, k });
+        }
+    }
+    ctx.enumerate("lock_interleavings", locks, |ctx, c| run_lock_case(ctx, c));
 }
